@@ -55,6 +55,21 @@ fn check_text(prop: &str, text: &str, rep: &mut Report) {
         let real = std::panic::catch_unwind(|| Value::parse_str_with(text, opts_real(o)));
         let real = match real { Ok(x) => x, Err(_) => { rep.violation("parser panics", "panic", format!("{:?} opts={:?}", text, o), "parse_str_with panicked".into()); continue } };
         rep.eval(r.is_ok() || text.len() > 1, fnv(text.as_bytes()) ^ (o.trunc as u64) << 1 ^ (o.invalid as u64));
+        // the byte-slice entry point on the same (well-formed) text must do exactly the same:
+        // verdict, value, code map, error
+        if !text.is_ascii() || text.len() <= 12 {
+            if let Ok(bs) = std::panic::catch_unwind(|| Value::parse_slice_with(text.as_bytes(), opts_real(o))) {
+                let same = match (&real, &bs) {
+                    (Ok((v1, c1)), Ok((v2, c2))) => v1 == v2 && c1.iter().map(|(_, e)| (e.span.start(), e.span.end(), e.volume)).collect::<Vec<_>>() == c2.iter().map(|(_, e)| (e.span.start(), e.span.end(), e.volume)).collect::<Vec<_>>(),
+                    (Err(e1), Err(e2)) => format!("{:?}", e1) == format!("{:?}", e2),
+                    _ => false,
+                };
+                if !same && matches!(prop, "C01" | "C02" | "C05" | "C07" | "C12") {
+                    let relevant = match prop { "C01" => real.is_ok() != bs.is_ok(), "C02" => real.is_ok() && bs.is_ok() && real.as_ref().unwrap().0 != bs.as_ref().unwrap().0, "C05" => real.is_ok() && bs.is_ok() && real.as_ref().unwrap().0 == bs.as_ref().unwrap().0, "C07" => real.is_err() && bs.is_err(), _ => true };
+                    if relevant { rep.violation("byte-slice entry point == string entry point on well-formed UTF-8", "bytes-vs-str", format!("{:?} opts={:?}", text, o), format!("parse_str_with={:?} parse_slice_with={:?}", real.as_ref().map(|x| from_real(&x.0)).map_err(|e| format!("{:?}", e)), bs.as_ref().map(|x| from_real(&x.0)).map_err(|e| format!("{:?}", e)))); }
+                }
+            } else { rep.violation("parser panics", "panic-bytes", format!("{:?} opts={:?}", text, o), "parse_slice_with panicked".into()); }
+        }
         let verdict_ok = real.is_ok() == r.is_ok();
         match prop {
             "C03" => {
